@@ -115,9 +115,22 @@ RECIPES += [
     ("C05", "neutral", [], C, _C1_HALF, "          *rf++ = 0.5;\n          memmove(pts, pts+1, 2*sizeof(double));\n          j = 1;\n", "step 5 in C as memmove"),
     ("C05", "neutral", [], C, _C1_TAIL, _C1_TAIL.replace("k<j;", "k!=j;"), "step 6 in C with an equality loop test"),
     ("C05", "neutral", [], C, _C1_TAIL, _C1_TAIL.replace("for (k=0; k<j; ++k) {\n      B = pts[k+1];", "k = 0;\n    while (k++ < j) {\n      B = pts[k];"), "step 6 in C with a post-increment in the loop test"),
+    ("C05", "neutral", [], C, _C1_TAIL, "    k = 0;\n    if (j > 0) do {\n      B = pts[k+1];\n      *rf++ = fabs(A-B)/2;\n      *rf++ = (A+B)/2;\n      *rf++ = 0.5;\n      A = B;\n    } while (++k < j);\n",
+     "step 6 in C as a guarded do-while"),
+    ("C05", "break", ["C05-R4"], C, _C1_TAIL, "    k = 0;\n    if (j > 1) do {\n      B = pts[k+1];\n      *rf++ = fabs(A-B)/2;\n      *rf++ = (A+B)/2;\n      *rf++ = 0.5;\n      A = B;\n    } while (++k < j);\n",
+     "step 6 in C as a do-while whose guard skips the case of one remaining range"),
+    ("C05", "neutral", [], PY, _PY1_STEP6, _PY1_STEP6.replace("    for k in range(j):\n        B = pts[k + 1]\n        n += 1\n        rf[n, 0] = abs(A - B) / 2\n        rf[n, 1] = (A + B) / 2\n        rf[n, 2] = 0.5\n        A = B\n",
+     "    k = 0\n    if j > 0:\n        while True:\n            B = pts[k + 1]\n            n += 1\n            rf[n, 0] = abs(A - B) / 2\n            rf[n, 1] = (A + B) / 2\n            rf[n, 2] = 0.5\n            A = B\n"
+     "            k += 1\n            if not k < j:\n                break\n"), "step 6 in Python as a guarded bottom-tested loop"),
     ("C05", "neutral", [], C, _C1_LOOP, "    double *rf = (double *)PyArray_DATA(rf_array);\n\n    for (k=0, j=-1; k<L; ++k) {\n", "comma operator in the for initialiser"),
     ("C05", "neutral", [], C, "PyArray_SimpleNew(2, dims, NPY_INTP)", "PyArray_ZEROS(2, dims, NPY_INTP, 0)", "PyArray_ZEROS for PyArray_SimpleNew"),
     ("C05", "neutral", [], C, _C_LEN, "    L = (ndim == 1) ? PyArray_SIZE(peaks_array) : 0;\n", "PyArray_SIZE and a conditional expression"),
     ("C05", "neutral", [], C, _C1_STORE, _rows2d(_C1_STORE), "output written through a pointer to rows, rf[n][c]"),
+    ("C05", "neutral", [], C, "    return Py_BuildValue(\"NN\", rf_array, os_array);", "    PyObject *res = PyTuple_New(2);\n    if (res == NULL) goto fail;\n    PyTuple_SET_ITEM(res, 0, (PyObject *)rf_array);\n"
+     "    PyTuple_SET_ITEM(res, 1, (PyObject *)os_array);\n    return res;", "the result tuple built with PyTuple_New / PyTuple_SET_ITEM"),
+    ("C05", "neutral", [], CYC, "    import pyyeti.rainflow.c_rain as rain\nexcept ImportError:", "    from .rainflow import c_rain as rain\nexcept ImportError:", "relative import of the compiled module"),
+    ("C05", "break", ["C05-R7"], CYC, "    import pyyeti.rainflow.c_rain as rain\nexcept ImportError:", "    from .rainflow import py_rain as rain\nexcept ImportError:", "relative import binds the Python module first"),
+    ("C05", "break", ["C05-R4"], C, "    return Py_BuildValue(\"NN\", rf_array, os_array);", "    PyObject *res = PyTuple_New(2);\n    if (res == NULL) goto fail;\n    PyTuple_SET_ITEM(res, 0, (PyObject *)os_array);\n"
+     "    PyTuple_SET_ITEM(res, 1, (PyObject *)rf_array);\n    return res;", "the result tuple built with the two tables swapped"),
     ("C05", "neutral", [], C, "    return Py_BuildValue(\"N\", rf_array);", "    PyObject *res = Py_BuildValue(\"O\", rf_array);\n    Py_DECREF(rf_array);\n    return res;", "format O plus a release instead of format N"),
 ]
